@@ -159,6 +159,11 @@ func vAnd(a, b int) int {
 	return vValid
 }
 
+// verifDirPayloads counts the config tuples with a dir payload in the current description: the
+// validation pass creates their directories (known finding), after which the real pass may find
+// "existing" targets that the description itself created.
+var verifDirPayloads int
+
 // verifEntry returns one dictionary entry value and its validity.
 func verifEntry(depth int) (rel.Value, int) {
 	switch verifChoice(6) {
@@ -184,6 +189,7 @@ func verifEntry(depth int) (rel.Value, int) {
 		case 1:
 			attrs = append(attrs, rel.NewAttr(fileField, verifStr("cfg")))
 		case 2:
+			verifDirPayloads++
 			attrs = append(attrs, rel.NewAttr(dirField, rel.MustNewDict(false, rel.NewDictEntryTuple(verifStr("c"), verifStr("x")))))
 		}
 		valid := vUnspecified
@@ -209,14 +215,19 @@ func verifEntry(depth int) (rel.Value, int) {
 	}
 }
 
-// verif:bound VerifC19OutDir output dictionaries of 1..2 entries (string, bytes, empty, nested dict, config tuple with each ifExists value and payload, invalid number), 3 pre-existing states of the target and of entry a, one injected fault at any of the first 6 filesystem calls
+// verif:bound VerifC19OutDir output dictionaries of 1..2 entries (string, bytes, empty, nested dict, config tuple with each ifExists value and payload, invalid number), 4 pre-existing states (nothing; the target; the target with entry a as a file or a directory; the target with entry b as a file), one injected fault at any of the first 6 filesystem calls
 // verif:cover VerifC19OutDir valid invalid fault-fired preexisting
 func VerifC19OutDir() {
+	verifDirPayloads = 0
 	fsys := &verifFs{nodes: map[string]*verifNode{}, faultAt: verifChoice(7) - 1}
 	// pre-existing state
-	switch verifChoice(3) {
+	switch verifChoice(4) {
 	case 1:
 		fsys.nodes["out"] = &verifNode{isDir: true}
+	case 3:
+		// the second entry's target exists already
+		fsys.nodes["out"] = &verifNode{isDir: true}
+		fsys.nodes["out/b"] = &verifNode{data: []byte("old")}
 	case 2:
 		fsys.nodes["out"] = &verifNode{isDir: true}
 		verifCover("preexisting")
@@ -253,6 +264,19 @@ func VerifC19OutDir() {
 	for _, m := range fsys.mutations {
 		parts := strings.SplitN(m, " ", 2)
 		verifAssert("mutations-stay-beneath-target", parts[1] == "out" || strings.HasPrefix(parts[1], "out/"))
+	}
+	// Atomicity, whatever the classification of the description: a run that reports an error
+	// without an injected I/O fault has rejected the description, so it must not have changed
+	// anything (directories created by the validation pass: known finding).
+	if err != nil && !fsys.fired {
+		onlyMkdir := true
+		for _, m := range fsys.mutations {
+			if !strings.HasPrefix(m, "mkdir ") {
+				onlyMkdir = false
+			}
+		}
+		verifKnown("KF-C19-dry-run-mkdir", "rejected-description-changes-nothing", onlyMkdir || verifDirPayloads > 0)
+		verifAssert("rejected-description-changes-nothing", len(fsys.mutations) == 0)
 	}
 	if valid == vInvalid {
 		verifCover("invalid")
